@@ -26,6 +26,7 @@ SUBJECTS = {
     "F30": "validate the extra headers of websocket.accept",
     "F31": "do not restart the idle timer on a task group that is shutting down",
     "F32": "close the WebSocket stream before answering 400 to data sent ahead",
+    "F33": "end an HTTP/2 stream in the same step that writes its last data",
     "F22": "report the client's close code",
 }
 log = subprocess.run(["git", "-C", "/repo", "log", "--format=%h %s"], capture_output=True, text=True).stdout.splitlines()
